@@ -17,34 +17,35 @@ import (
 // Case is a self-contained description of one differential case; runCase is a pure function of it,
 // so a replay file is just the JSON of the Case.
 type Case struct {
-	Kind     string    `json:"kind"`
-	Doc      string    `json:"doc_hex,omitempty"`
-	DocText  string    `json:"doc_text,omitempty"` // informational
-	Tree     string    `json:"tree,omitempty"`     // (hexname child…)
-	Fmt      Fmt4      `json:"fmt"`
-	Mode     string    `json:"mode,omitempty"`
-	Format   string    `json:"format,omitempty"`
-	Exts     []string  `json:"exts,omitempty"`
-	Fail     bool      `json:"reader_fails,omitempty"`
-	WFail    int       `json:"writer_fail_at"` // -1: never
-	Short    int       `json:"short,omitempty"`
-	FailAt   int       `json:"callback_fail_at"` // -1: never
-	Break    int       `json:"break_after"`      // -1: never
-	Target   string    `json:"target,omitempty"` // relative to the jail
-	Strict   bool      `json:"strict,omitempty"`
-	Dry      bool      `json:"dry,omitempty"`
-	Pre      []FSEntry `json:"pre,omitempty"`
-	FromRoot bool      `json:"from_root,omitempty"`
-	Alias    bool      `json:"alias,omitempty"` // use the deprecated alias
-	Massive  bool      `json:"massive,omitempty"`
-	Note     string    `json:"note,omitempty"`
-	ErrOnly  bool      `json:"compare_error_only,omitempty"` // invalid UTF-8 names: encoders substitute U+FFFD (library behaviour)
-	Texts    []string  `json:"item_texts,omitempty"`         // item text of every non-blank row (for the no-silent-loss check)
-	Stray    string    `json:"stray_option,omitempty"`       // an output-encoding option given to mkdir / verify / walk, where it must not matter
-	Busy     bool      `json:"busy_elsewhere,omitempty"`     // the consumer of the iterator builds another tree between two items
-	Chunk    int       `json:"reader_chunk,omitempty"`       // the reader delivers at most this many bytes per Read (0: no limit)
-	CbErr    string    `json:"callback_error,omitempty"`     // which error the failing callback returns: "" (a private one), skipdir, skipall, eof, wrapped-skipdir
-	RawTgt   bool      `json:"raw_target,omitempty"`         // the target directory is handed over as spelled (trailing slash, ./, x/../x …), not cleaned
+	Kind      string    `json:"kind"`
+	Doc       string    `json:"doc_hex,omitempty"`
+	DocText   string    `json:"doc_text,omitempty"` // informational
+	Tree      string    `json:"tree,omitempty"`     // (hexname child…)
+	Fmt       Fmt4      `json:"fmt"`
+	Mode      string    `json:"mode,omitempty"`
+	Format    string    `json:"format,omitempty"`
+	Exts      []string  `json:"exts,omitempty"`
+	Fail      bool      `json:"reader_fails,omitempty"`
+	WFail     int       `json:"writer_fail_at"` // -1: never
+	Short     int       `json:"short,omitempty"`
+	FailAt    int       `json:"callback_fail_at"` // -1: never
+	Break     int       `json:"break_after"`      // -1: never
+	Target    string    `json:"target,omitempty"` // relative to the jail
+	Strict    bool      `json:"strict,omitempty"`
+	Dry       bool      `json:"dry,omitempty"`
+	Pre       []FSEntry `json:"pre,omitempty"`
+	FromRoot  bool      `json:"from_root,omitempty"`
+	Alias     bool      `json:"alias,omitempty"` // use the deprecated alias
+	Massive   bool      `json:"massive,omitempty"`
+	Note      string    `json:"note,omitempty"`
+	ErrOnly   bool      `json:"compare_error_only,omitempty"`         // invalid UTF-8 names: encoders substitute U+FFFD (library behaviour)
+	Texts     []string  `json:"item_texts,omitempty"`                 // item text of every non-blank row (for the no-silent-loss check)
+	Stray     string    `json:"stray_option,omitempty"`               // an output-encoding option given to mkdir / verify / walk, where it must not matter
+	Busy      bool      `json:"busy_elsewhere,omitempty"`             // the consumer of the iterator builds another tree between two items
+	Chunk     int       `json:"reader_chunk,omitempty"`               // the reader delivers at most this many bytes per Read (0: no limit)
+	CbErr     string    `json:"callback_error,omitempty"`             // which error the failing callback returns: "" (a private one), skipdir, skipall, eof, wrapped-skipdir
+	RawTgt    bool      `json:"raw_target,omitempty"`                 // the target directory is handed over as spelled (trailing slash, ./, x/../x …), not cleaned
+	StrayLast bool      `json:"stray_option_after_dry_run,omitempty"` // the stray encoding option stands after WithDryRun in the option list (otherwise before it)
 }
 
 // reader of the case's document
@@ -137,6 +138,15 @@ func strayAll(cs []Case) []Case {
 		}
 	}
 	return out
+}
+
+// dryOpts: the dry-run option together with the case's stray encoding option, in the order the case asks for –
+// an encoding option says nothing about Mkdir, wherever it stands: dry run stays dry run
+func dryOpts(c Case, base []gtree.Option) []gtree.Option {
+	if c.StrayLast {
+		return append(append(base, gtree.WithDryRun()), strayOpts(c)...)
+	}
+	return append(append(base, strayOpts(c)...), gtree.WithDryRun())
 }
 
 func newCase(kind string) Case {
@@ -241,9 +251,11 @@ func runCaseR(m *Model, c Case) ([]Diff, string) {
 		return d, realv
 	case "walk":
 		var vs []string
+		var kept []*gtree.WalkerNode
 		k := 0
 		cb := func(wn *gtree.WalkerNode) error {
 			vs = append(vs, showVisit(wn))
+			kept = append(kept, wn)
 			k++
 			if c.Busy {
 				reenter()
@@ -260,6 +272,9 @@ func runCaseR(m *Model, c Case) ([]Diff, string) {
 			err = gtree.WalkFromMarkdown(c.reader(), cb, append(fmtOpts(c.Fmt), strayOpts(c)...)...)
 		}
 		realv := "v=" + showVisits(vs) + " e=" + classifyCb(c, err)
+		if d := keptVisits(kept, vs); d != nil {
+			return d, realv
+		}
 		if err == nil && len(c.Texts) > 0 {
 			// direct evaluation of C02's "no silent loss" on the real code
 			have := map[string]bool{}
@@ -289,9 +304,11 @@ func runCaseR(m *Model, c Case) ([]Diff, string) {
 	case "rootwalk":
 		t := parseTreeEnc(c.Tree)
 		var vs []string
+		var kept []*gtree.WalkerNode
 		k := 0
 		cb := func(wn *gtree.WalkerNode) error {
 			vs = append(vs, showVisit(wn))
+			kept = append(kept, wn)
 			k++
 			if c.Busy {
 				reenter()
@@ -310,9 +327,9 @@ func runCaseR(m *Model, c Case) ([]Diff, string) {
 		}
 		realv := "v=" + showVisits(vs) + " e=" + classifyCb(c, err)
 		modelv := m.Ask("rootwalk " + c.Fmt.enc() + " " + optN(c.FailAt) + " " + addMirror(t).Enc())
-		d := cmp("walk-root", realv, modelv)
+		d := append(cmp("walk-root", realv, modelv), keptVisits(kept, vs)...)
 		// walking the same root again visits the same rendered tree (node facts are rebuilt, not appended to)
-		vs, k = nil, 0
+		vs, k, kept = nil, 0, nil
 		err2 := gtree.WalkFromRoot(root, cb, append(fmtOpts(c.Fmt), strayOpts(c)...)...)
 		d = append(d, cmp("walk-root (second walk of the same root)", "v="+showVisits(vs)+" e="+classifyCb(c, err2), modelv)...)
 		return d, realv
@@ -362,6 +379,17 @@ func runCaseR(m *Model, c Case) ([]Diff, string) {
 	return []Diff{{What: "unknown kind " + c.Kind}}, ""
 }
 
+// keptVisits: the *WalkerNode values a callback retained still describe, after the walk has returned, the nodes
+// they described when they were handed over
+func keptVisits(kept []*gtree.WalkerNode, vs []string) []Diff {
+	for i, wn := range kept {
+		if i < len(vs) && showVisit(wn) != vs[i] {
+			return []Diff{{What: "a *WalkerNode the callback kept describes another node after the walk has returned (visit " + fmtInt(i) + ")", Real: showVisit(wn), Model: vs[i]}}
+		}
+	}
+	return nil
+}
+
 func optN0(n int) string {
 	if n < 0 {
 		return "0"
@@ -405,7 +433,7 @@ func runMkdir(m *Model, c Case) ([]Diff, string) {
 		}
 	}
 	if c.Dry {
-		opts = append(opts, gtree.WithDryRun())
+		opts = dryOpts(c, []gtree.Option{gtree.WithTargetDir(target), gtree.WithFileExtensions(c.Exts)})
 		func() {
 			// released also when the call panics (C12 recovers the panic and reports it; the other cases must go on)
 			colorOutMu.Lock()
